@@ -59,13 +59,21 @@ def settings(tier):
                                 continue
                             out.append((L, delay, fold, hist, script, mode))
     # the transmitter was first handed to an environment with a LONGER latency (45 s), then to the one under test
+    out.append((0, 0, "whole", "all", 0, "features:shared"))
     for L in (0, 30):
-        out.append((L, 0, "whole", "all", 0, "features:shared"))
+        out.append((L, 0, "whole", "all", 0, "features:nano"))
     return out
 
 
-def extra_positions(G, L):
+def extra_positions(G, L, nano=False):
     pos = []
+    if nano:
+        # a nanosecond-resolution feed (pandas Timestamps): stamps a fraction of a MICROsecond after the timestep / after the window
+        import pandas as pd
+        for g in G[:-1]:
+            pos += [pd.Timestamp(g) + pd.Timedelta(500, "ns"), pd.Timestamp(g) + pd.Timedelta(seconds=L) + pd.Timedelta(500, "ns"),
+                    pd.Timestamp(g) + pd.Timedelta(999, "ns")]
+        return pos
     for g in G[:-1]:
         # sub-second stamps: 0.4 s after the timestep, and 0.4 s after the end of the latency window (never inside it)
         pos += [g + timedelta(seconds=0.4), g + timedelta(seconds=L if L else 2), g + timedelta(seconds=L + 0.4 if L else 3)]
@@ -90,7 +98,7 @@ def run_stream(setting, nbars, bits, extra, table, table_next, case_of):
             evs.append(EventNewObservation(g, {"x": v, "y": -v}))
     if extra is not None:
         pi, kind, val = extra
-        t = extra_positions(G, L)[pi]
+        t = extra_positions(G, L, mode.endswith(":nano"))[pi]
         if kind == "Q":
             evs.append(EventNBBO(t, A, 70.0 + 6 * val, 71.0 + 6 * val))
         else:
@@ -104,6 +112,8 @@ def run_stream(setting, nbars, bits, extra, table, table_next, case_of):
     if mode.endswith(":shared"):
         mode = mode.split(":")[0]
         TradingEnv(BoxPortfolio(cs, -1.0, 1.5), transmitter=tr, latency=45, initial_cash=4096.0)
+    if mode.endswith(":nano"):
+        mode = mode.split(":")[0]
     if mode == "features":
         recf = RecFeature()
         state = [FeaturePrices(cs), FeaturePortfolioWeight(cs, -1.0, 1.5), recf]
